@@ -1299,3 +1299,65 @@ def run(ctx):
     if ck.tcount:
         ctx.notes["model_impl_disagreements_per_site"] = dict(sorted(ck.tcount.items()))
     ctx.notes["cases_where_model_says_C_undefined_behaviour(any outcome accepted for the tie)"] = ck.ub_points
+    qualified_leg(ctx)
+
+
+QUAL_SRC = '''
+cimport cython
+cdef enum QE:
+    QE_A = 1
+ctypedef const long long cll_t
+
+def neg_signed_int(signed int a): return -a
+def neg_signed_long(signed long a): return -a
+def neg_const_ll(const long long a): return -a
+def neg_const_ui(const unsigned int a): return -a
+def neg_enum(QE a): return -a
+def add_signed_int(signed int a, signed int b): return a + b
+def sub_const_ll(const long long a, const long long b): return a - b
+def mul_const_ll(const long long a, const long long b): return a * b
+def negsum_signed_int(signed int a, signed int b): return -a + b
+def shl_signed_int(signed int a, signed int b): return a << b
+'''
+
+
+def qualified_leg(ctx):
+    """Operand types that are as wide as the result type but spelled/qualified differently (`signed int`, const, enum):
+    under overflowcheck the result must be exact or OverflowError — never a silently wrapped value (oracle leg only)."""
+    exact = {"neg": lambda a, b: -a, "add": lambda a, b: a + b, "sub": lambda a, b: a - b, "mul": lambda a, b: a * b,
+             "negsum": lambda a, b: -a + b, "shl": lambda a, b: a << b if 0 <= b < 200 else None}
+    funcs = [("neg_signed_int", 32, 1, 1), ("neg_signed_long", 64, 1, 1), ("neg_const_ll", 64, 1, 1), ("neg_const_ui", 32, 0, 1),
+             ("neg_enum", 32, 1, 1), ("add_signed_int", 32, 1, 2), ("sub_const_ll", 64, 1, 2), ("mul_const_ll", 64, 1, 2),
+             ("negsum_signed_int", 32, 1, 2), ("shl_signed_int", 32, 1, 2)]
+    for fold in (True, False):
+        try:
+            so = cybuild.build_module(ctx, "c04qual%d" % fold, QUAL_SRC, directives={"overflowcheck": True, "overflowcheck.fold": fold})
+        except cybuild.BuildError as e:
+            ctx.tie_break("D-c build of the qualified-type module", e.stage + ": " + e.log[-400:], {"fold": fold})
+            continue
+        cases = []
+        for name, w, sg, nargs in funcs:
+            lo, hi = (-(1 << (w - 1)), (1 << (w - 1)) - 1) if sg else (0, (1 << w) - 1)
+            vals = sorted(set(v for v in [lo, lo + 1, -2, -1, 0, 1, 2, 5, hi - 1, hi] if lo <= v <= hi))
+            if name == "neg_enum":
+                vals = [-(1 << 31), -1, 0, 1, (1 << 31) - 1]
+            if nargs == 1:
+                cases += [(name, (a,)) for a in vals]
+            elif name.startswith("shl"):
+                cases += [(name, (a, b)) for a in vals for b in (0, 1, 5, 30, 31)]
+            else:
+                cases += [(name, (a, b)) for a in vals for b in vals]
+        outs = cybuild.run_cases(ctx, so, [(n, repr(a) if len(a) > 1 else "(%d,)" % a[0]) for n, a in cases])
+        for (name, args), got in zip(cases, outs):
+            op = name.split("_")[0]
+            a = args[0]
+            b = args[1] if len(args) > 1 else 0
+            ex = exact[op](a, b)
+            ctx.count("qualified/" + name)
+            ctx.seen(("qual", fold, name, args))
+            if got.startswith("ok int:") and ex is not None and int(got[7:]) != ex:
+                ctx.violation("qualified-operand-type-wraps-%s" % name,
+                              "overflowcheck=True fold=%s: %s%r returned %s, exact result %d (must be exact or OverflowError)" % (fold, name, args, got[7:], ex),
+                              {"module": QUAL_SRC, "func": name, "args": list(args), "fold": fold, "got": got})
+            elif got.startswith(("crash", "timeout")):
+                ctx.violation("qualified-operand-type-crash-%s" % name, "%s%r: %s" % (name, args, got), {"func": name, "args": list(args)})
